@@ -251,14 +251,15 @@ impl<C: Config> DirtyWorker<C> {
 
             let query_kind = database.get_query_kind(&caller).await;
 
-            if matches!(
-                query_kind,
-                QueryKind::Executable(
-                    ExecutionStyle::Projection | ExecutionStyle::Firewall
-                )
-            ) {
-                // don't continue propagation through firewall or
-                // projection nodes
+            let stops_here = match query_kind {
+                QueryKind::Executable(ExecutionStyle::Firewall) => true,
+                QueryKind::Executable(ExecutionStyle::Projection) => {
+                    !task.through_projections()
+                }
+                _ => false,
+            };
+
+            if stops_here {
                 continue;
             }
 
@@ -283,7 +284,7 @@ impl<C: Config> Drop for DirtyWorker<C> {
 
 impl<C: Config> Engine<C> {
     #[instrument(
-        skip(self, query_id, trasnaction),
+        skip(self, query_id, through_projections, trasnaction),
         level = "debug",
         name = "dirty_propagation",
         target = "qbice"
@@ -291,6 +292,7 @@ impl<C: Config> Engine<C> {
     pub(super) async fn dirty_propagate_from_batch(
         self: &Arc<Self>,
         query_id: impl IntoIterator<Item = QueryID>,
+        through_projections: bool,
         trasnaction: WriteTransaction<C>,
     ) -> WriteTransaction<C> {
         let write_tx = Arc::new(Mutex::new(trasnaction));
@@ -302,7 +304,7 @@ impl<C: Config> Engine<C> {
         for query_id in query_id {
             self.computation_graph
                 .dirty_worker
-                .submit_task(batch.new_task(query_id));
+                .submit_task(batch.new_task(query_id, through_projections));
         }
 
         drop(batch);
